@@ -57,8 +57,8 @@ def _configs(quick):
                                            LocalLocs={"a"}, CtlDups={False}), False),
         ]
     return [
-        ("2 peers, 6 row shapes", dict(base, Peers={1, 2},
-                                       Shapes={"absent", "valid", "nohid", "dup", "inv_valid", "valid_inv"},
+        ("2 peers, 5 row shapes", dict(base, Peers={1, 2},
+                                       Shapes={"absent", "valid", "nohid", "dup", "inv_valid"},
                                        LocalLocs={"a", "b"}, CtlDups={False}), False),
         ("1 peer, all row shapes, control duplicate, forced", dict(base, Peers={1}, Shapes=set(ALL_SHAPES),
                                                                    LocalLocs={"a", "b"}, CtlDups={False, True},
